@@ -122,6 +122,7 @@ type Vaxis struct {
 	cursorNext       cursorState
 	cursorLast       cursorState
 	closed           bool
+	suspended        bool
 	refresh          bool
 	kittyFlags       int
 	disableMouse     bool
@@ -1349,6 +1350,11 @@ func (vx *Vaxis) Suspend() error {
 	// 2. Send a DA1 query so there is data on the reader, breaking the read
 	//    loop
 	// 3. Confirm we have closed
+	if vx.suspended {
+		// The parser is stopped and the terminal restored already
+		return nil
+	}
+	vx.suspended = true
 	vx.parser.Close()
 	io.WriteString(vx.console, primaryAttributes)
 	vx.parser.WaitClose()
@@ -1445,6 +1451,7 @@ func (vx *Vaxis) Resume() error {
 	if err != nil {
 		return err
 	}
+	vx.suspended = false
 
 	vx.enterAltScreen()
 	vx.enableModes()
